@@ -75,7 +75,7 @@ package gin
 //@   ensures[C16] served_request_is_not_aborted: ncalls("field:Config.ErrorHandler") == 0 ==> ncalls("gin.Context.Abort") == 0
 //@   ensures[C16] close_error_reported: ncalls("field:Config.CloseErrorHandler") <= 1 && (ncalls("field:Config.CloseErrorHandler") == 1 ==> callarg("field:Config.CloseErrorHandler", 0, 1) == callret("godi.Scope.Close", 0, 0) && callret("godi.Scope.Close", 0, 0) != nil)
 //@   loop 1
-//@     invariant progress: ncalls("fnvar:mw") == idx && ncalls("gin.Context.Next") == 0 && ncalls("field:Config.ErrorHandler") == 0 && ncalls("godi.Scope.Close") == 0
+//@     invariant progress: ncalls("fnvar:mw") == idx && ncalls("gin.Context.Next") == 0 && ncalls("field:Config.ErrorHandler") == 0 && ncalls("godi.Scope.Close") == 0 && ncalls("gin.Context.Abort") == 0
 //@        && ncalls("godi.Provider.CreateScope") == 1 && callret("godi.Provider.CreateScope", 0, 1) == nil && scope == callret("godi.Provider.CreateScope", 0, 0) && ncalls("field:Config.CloseErrorHandler") == 0
 //@        && ncalls("http.Request.WithContext") == 1 && callarg("http.Request.WithContext", 0, 1) == pure("godi.Scope.Context", scope) && calltime("http.Request.WithContext", 0) < clock && (forall a int :: 0 <= a && a < idx ==> calltime("http.Request.WithContext", 0) < calltime("fnvar:mw", a))
 //@     invariant in_order: forall c int :: 0 <= c && c < idx ==> callarg("fnvar:mw", c, 0) == mws[c] && callarg("fnvar:mw", c, 1) == scope && callret("fnvar:mw", c, 0) == nil
